@@ -310,6 +310,18 @@ def rule_node_types(ctx):
             else:
                 ctx.bad("M6", key, "has_preceding_inherited_fields is set only when the child is *not* auxiliary: a repeat whose content has field(...) no longer keeps productions apart that differ in where "
                         "it sits, they share one REDUCE, and by-field lookup on the losing production finds nothing although node-types.json calls the field required")
+    # A2: replacing a step's alias replaces both halves of it (value and named-ness)
+    fn = find_fn(ctx, F, "ProductionStep::set_alias", "A2")
+    if fn:
+        holder = [fn] + [f for f in F.fn_list if f.name.startswith(fn.name + "::{closure")]
+        setn = [pt for pt, c, d in calls_named(fn, "set_alias_named")]
+        direct = [pt for pt, e in fn.points() for x in own_walk(e) if x.get("k") == "assign" and "flags" in show(x["l"])]
+        if setn or direct:
+            ctx.on_all_paths("A2", "set_alias:named-bit-always-rewritten", fn, setn + direct,
+                             "ProductionStep::set_alias rewrites the alias-is-named bit on every path (inlining overwrites a step's alias: a named alias replaced by an anonymous one must not stay named, "
+                             "or the tree holds a named node that node-types.json lists as anonymous)")
+        else:
+            ctx.bad("A2", "set_alias:named-bit-always-rewritten", "ProductionStep::set_alias no longer sets the alias-is-named bit")
     # M4: a named token that shares its kind with a rule has no children and no fields that are required
     fn = find_fn(ctx, F, "node_types::build_token_entries", "M4")
     if fn:
